@@ -231,6 +231,26 @@ def rule_constpat(text, log):
         log.rule('R-constpat', strip_markers(scrut)[:40])
 
 
+def trait_defaults(read_repo, trait, log):
+    """text of the default (bodied) methods of `trait` in src/traits.rs, minus those returning RefMut (R-refmut)"""
+    raw = add_markers(read_repo('src/traits.rs'), 'traits')
+    msk, blocks, fns = blocks_fns(raw)
+    hits = [b for b in blocks if b.kind == 'trait' and b.key == trait]
+    if len(hits) != 1:
+        raise ExtractError('R-default: trait %s not found in src/traits.rs' % trait)
+    out = []
+    for f in fns:
+        if f.block is hits[0] and f.has_body:
+            sig = strip_markers(raw[f.fn_pos:f.body_open])
+            if re.search(r'->\s*RefMut\s*<', sig):
+                log.rule('R-refmut', '%s::%s' % (trait, f.name))
+                continue
+            t = raw[f.item_start:f.body_close + 1]
+            t = re.sub(r'#\[inline(\(always\))?\]', '', t)
+            out.append(t)
+    return '\n'.join(out)
+
+
 def rule_implarg(text, log):
     """R-implarg: `fn f(x: impl Bound)` -> `fn f<GvI: Bound>(x: GvI)` (argument-position impl Trait IS an anonymous type parameter;
     naming it lets the contract speak about the conversion)"""
@@ -277,7 +297,7 @@ def rule_implarg(text, log):
         log.rule('R-implarg', f.key)
 
 
-def impl_to_inherent(text, trait_rx, log, rule='R-inherent', rename=None):
+def impl_to_inherent(text, trait_rx, log, rule='R-inherent', rename=None, extra_items=None):
     """`impl<..> Trait<..> for Type where .. { items }` -> `impl<..> Type { items }`; `type X = T;` items dropped, Self::X -> T."""
     while True:
         msk, blocks, fns = blocks_fns(text)
@@ -299,6 +319,10 @@ def impl_to_inherent(text, trait_rx, log, rule='R-inherent', rename=None):
             ty = ty[:w.start()]            # HRTB where clauses (`for<'a> C: Clone`) are dropped with the trait
         new_hdr = hdr[:im.end()] + ' ' + ty.strip() + ' ' + blank(hdr)
         body = text[b.open:b.close + 1]
+        if extra_items:
+            # R-default: the default methods of the trait, copied into each implementing type (what monomorphisation does)
+            body = body[:-1] + '\n' + extra_items + '\n}'
+            log.rule('R-default', b.key)
         bm = rs.mask(body)
         types = {}
         edits = []
@@ -436,8 +460,8 @@ def adapt_generated(text, log, read_repo, schema=None):
     text = text + '\nimpl WorldOps for %s {}\n' % world
     log.rule('R-split', 'impl World for %s -> inherent items + `impl WorldOps` (default methods)' % world)
     text = impl_to_inherent(text, r'^Componentsfor', log)
-    text = impl_to_inherent(text, r'^View<\'a>for', log)
-    text = impl_to_inherent(text, r'^Borrow<\'a>for', log)
+    text = impl_to_inherent(text, r'^View<\'a>for', log, extra_items=trait_defaults(read_repo, 'View', log))
+    text = impl_to_inherent(text, r'^Borrow<\'a>for', log, extra_items=trait_defaults(read_repo, 'Borrow', log))
     text = impl_to_inherent(text, r'^Iteratorfor', log)        # EcsEventIterator: nothing in the verified text calls it through the trait
     # R-tag
     text = tag_rewrite(text, archs, log)
